@@ -189,10 +189,12 @@ func init() {
 		Units: []string{"fasthttp.(*workerPool)"},
 		Runs: []Run{
 			{Pkg: "fasthttp", Func: "vhC13WorkerPool", Quick: map[string]int{"conns": 3}, Thorough: map[string]int{"conns": 4}, NoNative: true},
+			{Pkg: "fasthttp", Func: "vhC13Lifecycle", NoNative: true},
 		},
 		Assume: []string{
 			"goroutines, channels, mutexes and timers run on the engine's cooperative scheduler with virtual time: switch points are blocking operations, runtime.Gosched and the vYield schedule choice inside the worker function and after each Serve; `conns` connections, MaxWorkersCount ∈ {1,2}, each handler returning nil or errHijacked",
 			"sampled paths are not re-run natively: the schedule choices of the cooperative scheduler cannot be imposed on the real runtime (counterexamples would still be replayed, and reported as unconfirmed if the real scheduler does not reproduce them)",
+			"timed histories (vhC13Lifecycle, virtual clock, MaxWorkersCount 2–3, MaxIdleWorkerDuration 1 s, a worker function that takes 20 ms): a cleanup round in which one idle worker is stale and another fresh retires exactly the stale one and later connections are still served once; Stop called while every worker is busy leaves no worker once they finish",
 			"preemption between arbitrary instructions (data-race level interleavings) and Stop racing with in-flight Serve calls are outside this check",
 		},
 	})
@@ -328,8 +330,10 @@ func init() {
 		Runs: []Run{
 			{Pkg: "fasthttp", Func: "vhC20Redirects", Quick: map[string]int{"redirects": 1, "hostLen": 2}, Thorough: map[string]int{"redirects": 1, "hostLen": 2}},
 			{Pkg: "fasthttp", Func: "vhC20Redirects", Thorough: map[string]int{"redirects": 2, "hostLen": 0}, ThoroughOnly: true, PathCap: 600000},
+			{Pkg: "fasthttp", Func: "vhC20Chain"},
 		},
 		Assume: []string{
+			"redirect chains (vhC20Chain): two or three absolute redirects (302 / 307) over nine hosts built around the initial host a.co — subdomains, look-alikes, prefixes and suffixes of earlier hops, upper case — with a fresh Request or one used before for a longer host name: at every hop the trust decision is against the initial host",
 			"the real redirect loop (doRequestFollowRedirects) with a recording clientDoer: initial URL http://a.co/start with Authorization and Cookie set, GET or POST with body; each hop answers 301/302/303/307/308 with Location = relative path, or {http://, https://, //, HTTP://u:p@} + ≤ hostLen arbitrary host-label bytes + {\"\", a.co, .a.co, xa.co} + {\"\", :81} + /p; MaxRedirects ∈ {0,1,2}; trust rule written independently (exact host or dot-suffix, ASCII case-insensitive, port ignored)",
 			"IPv6 literals, percent-escapes and non-label bytes in the host, Cookie2/Proxy-*/WWW-Authenticate (only Authorization, Proxy-Authorization and Cookie are observed) and the public Client/HostClient wrappers are outside this check",
 		},
@@ -412,7 +416,7 @@ func init() {
 		ID:    "C23",
 		Units: fsUnits,
 		Runs: []Run{
-			{Pkg: "fasthttp", Func: "vhC23FSRoot", Quick: map[string]int{"targetLen": 2, "hostLen": 1}, Thorough: map[string]int{"targetLen": 3, "hostLen": 2}, PathCap: 3000000},
+			{Pkg: "fasthttp", Func: "vhC23FSRoot", Quick: map[string]int{"targetLen": 2, "hostLen": 1}, Thorough: map[string]int{"targetLen": 3, "hostLen": 1}, PathCap: 3000000},
 		},
 		Assume: []string{fsAssume,
 			"request target '/' + ≤ targetLen arbitrary bytes through the real URI parser and path normaliser; Root ∈ {r, r/s, empty}; Compress on/off (Accept-Encoding: gzip); no rewriter or NewVHostPathRewriter / NewPathSlashesStripper / NewPathPrefixStripper with count 0..2; host of ≤ hostLen arbitrary bytes for the virtual-host rewriter; every file is absent, so the subject is which names are passed to Open",
@@ -487,7 +491,7 @@ func init() {
 		ID:    "C18",
 		Units: append([]string{"fasthttp.(*HostClient).queueForIdle", "fasthttp.(*HostClient).dialConnFor", "fasthttp.(*wantConn).tryDeliver", "fasthttp.(*wantConn).cancel", "fasthttp.(*wantConn).waiting", "fasthttp.(*wantConnQueue)", "fasthttp.(*HostClient).CloseIdleConnections", "fasthttp.(*HostClient).ConnsCount", "fasthttp.AcquireTimer", "fasthttp.ReleaseTimer"}, clientUnits...),
 		Runs: []Run{
-			{Pkg: "fasthttp", Func: "vhC18Pool", Quick: map[string]int{"calls": 2}, Thorough: map[string]int{"calls": 3}, NoNative: true, PathCap: 3000000},
+			{Pkg: "fasthttp", Func: "vhC18Pool", Quick: map[string]int{"calls": 3}, Thorough: map[string]int{"calls": 3}, NoNative: true, PathCap: 3000000},
 		},
 		Assume: []string{clientAssume,
 			"`calls` concurrent HostClient.Do calls as goroutines on the engine's cooperative scheduler (virtual time) with MaxConns ∈ {1,2} and MaxConnWaitTimeout 0 or 500 ms; every dial may fail, every response may say Connection: close; the scripted network yields inside Dial and before it answers, so calls interleave there and at every blocking operation of the pool (mutex, wantConn channel, timer); obligations: live connections ≤ MaxConns at every dial, no second request written to a connection before the response to the first was handed over, every call ends with success or one of ErrNoFreeConns / ErrTimeout / the dial error / ErrConnectionClosed within the wait timeout, ConnsCount = idle + lent at quiescence and 0 after CloseIdleConnections with every connection closed exactly once",
@@ -601,11 +605,16 @@ func init() {
 			{Pkg: "fasthttp", Func: "vhC41Dialer", Quick: map[string]int{"dials": 3}, Thorough: map[string]int{"dials": 4}, NoNative: true, Race: true},
 			{Pkg: "fasthttp", Func: "vhC15Shutdown", NoNative: true, Race: true},
 			{Pkg: "fasthttp", Func: "vhC40RemoveDuringCall", NoNative: true, Race: true},
+			{Pkg: "fasthttp", Func: "vhC13WorkerPool", Quick: map[string]int{"conns": 3}, Thorough: map[string]int{"conns": 3}, NoNative: true, Race: true},
+			{Pkg: "fasthttp", Func: "vhC16LateHandler", NoNative: true, Race: true},
+			{Pkg: "fasthttp", Func: "vhC18Pool", Quick: map[string]int{"calls": 2}, Thorough: map[string]int{"calls": 2}, NoNative: true, Race: true},
+			{Pkg: "fasthttp", Func: "vhC04Pipeline", Quick: map[string]int{"calls": 3}, Thorough: map[string]int{"calls": 4}, NoNative: true, Race: true},
+			{Pkg: "fasthttp", Func: "vhC14ServePath", NoNative: true, Race: true},
 		},
 		Assume: []string{
 			"happens-before race detection inside the symbolic interpreter (engine/interp/race.go): a vector clock per goroutine, a shadow cell (last write, reads since) per memory slot and per map; go statements, mutex / RWMutex lock and unlock, channel send / receive / close / select, WaitGroup, Cond, Pool Get/Put, every sync/atomic operation, the sync.Map model and timer callbacks are acquire and/or release operations (where the exact Go-memory-model edge would need more bookkeeping the model adds edges, so it can miss a race but a missing edge is never the reason for a report); accesses through sync/atomic are synchronisation, not data accesses, so mixed atomic / plain access to one word is not detected; a race whose two sites are both in harness code is not reported",
 			"a race is reported when two accesses to one slot or map, at least one a write, from different goroutines are unordered by happens-before on a path the engine runs — independent of the order the cooperative scheduler ran them in, but only for accesses that both occur on that path; the paths are those of the harness choices (options, request kinds, delays on the virtual clock), not all interleavings",
-			"uses exercised: one Server serving 2–3 connections through the worker pool with counters read from outside and Shutdown during traffic (also the C15 harness); one HostClient / Client called from 2–3 goroutines with MaxConns 1–2, slow and closing servers, idle-connection cleaners and CloseIdleConnections; PipelineClient (the C38 harness); LBClient with concurrent calls, AddClient and RemoveClients (also the C40 harness); TCPDialer concurrent dials and address rotation (the C41 harnesses); one FS handler called from two goroutines with the cache cleaner running. TLS, compression, streaming bodies, hijacked connections and the race detector's view of the real runtime (native -race runs) are outside; counterexamples are not re-run natively",
+			"uses exercised: one Server serving 2–3 connections through the worker pool with counters read from outside and Shutdown during traffic (also the C15 harness); one HostClient / Client called from 2–3 goroutines with MaxConns 1–2, slow and closing servers, idle-connection cleaners and CloseIdleConnections; PipelineClient (the C38 harness); LBClient with concurrent calls, AddClient and RemoveClients (also the C40 harness); TCPDialer concurrent dials and address rotation (the C41 harnesses); one FS handler called from two goroutines with the cache cleaner running; the worker pool (C13 harness), TimeoutHandler with a handler that outlives its deadline and follows the retention rules (C16 harness), the HostClient connection pool under MaxConns (C18 harness), pipelined calls (C04 harness) and refused / outliving connections on the Serve path (C14 harness). TLS, compression, streaming bodies, hijacked connections and the race detector's view of the real runtime (native -race runs) are outside; counterexamples are not re-run natively",
 		},
 	})
 }
